@@ -8,7 +8,7 @@ from typing import Callable
 from cached_property import cached_property
 from lazy_object_proxy import Proxy
 
-from spec_classes.types import MISSING, Attr
+from spec_classes.types import MISSING, UNCHANGED, Attr
 from spec_classes.utils.method_builder import MethodBuilder
 from spec_classes.utils.mutation import (
     mutate_attr,
@@ -119,7 +119,9 @@ class UpdateAttrMethod(AttrMethodDescriptor):
         _if: bool = True,
         **attrs,
     ):
-        if not _if:
+        if not _if or _new_value is UNCHANGED:
+            # (`UNCHANGED`: keep whatever is there - nothing is re-prepared,
+            # copied or invalidated)
             return self
         return WithAttrMethod.with_attr(
             attr_spec,
